@@ -158,6 +158,11 @@ def flag_vals(model, p):
             g[('has', model.proto.kind_at(b[1]))] = pol
         elif atom[0] == 'broke':
             g['broke'] = pol
+        elif atom[0] == 'truthy' and atom[1][0] == 'V' and len(atom[1]) > 3 and atom[1][3] == 'after' \
+                and model.resolve_after(atom[1], p)[0] is not None and model.sides.bucket(model.resolve_after(atom[1], p)[0]) is not None:
+            # a bucket variable tested after the loop over the names (which may have emptied it): "is there still one"
+            b = model.sides.bucket(model.resolve_after(atom[1], p)[0])
+            g[('has_after', model.proto.kind_at(b[1]))] = pol
         else:
             unknown.append((atom, pol))
     return g, unknown
@@ -225,7 +230,7 @@ def rule_mask_hide(check, model, rule, rule_src):
                     continue
                 if got[i] != exp[i]:
                     # a star that is absent anyway may be passed as None/kept alike
-                    if i in (iVP, iVK) and g.get(('has', proto.kind_at(i))) is False:
+                    if i in (iVP, iVK) and (g.get(('has', proto.kind_at(i))) is False or g.get(('has_after', proto.kind_at(i))) is False):
                         continue
                     flagtxt = ', '.join('%s=%s' % (k, v) for k, v in val.items() if v) or 'no hide flag'
                     problems.append((i, 'with %s the %s bucket is %s, expected %s' % (flagtxt, proto.kind_at(i), got[i], exp[i])))
@@ -247,36 +252,6 @@ def rule_mask_hide(check, model, rule, rule_src):
             check.holds(rule, st, 'buckets before the name loop are exactly those the hide flags leave', key=key, guards=gtext,
                         effect=', '.join('%s:%s' % (proto.kind_at(i), got[i]) for i in range(5)))
         seen.add(key)
-        # hide_args: the names of every positional parameter that is removed are recorded as consumed (a later name among them is
-        # a duplicate, and their provenance entries go with them)
-        if g.get('hide_args') is True:
-            key_c = '_signatures:_mask|hide_args-consumes|%s' % fkeytxt
-            if key_c not in seen:
-                seen.add(key_c)
-                got_c = set()
-                for e in p.effects:
-                    if e.kind == 'mut' and e.target[0] == 'SET' and e.op in ('update', 'add', 'ior') and e.args:
-                        for s_ in subterms(e.args[0]):
-                            b_ = model.sides.bucket(s_)
-                            if b_ is not None and b_[1] in (iPO, iPOK):
-                                got_c.add(b_[1])
-                missing = [proto.kind_at(i) for i in (iPO, iPOK) if i not in got_c]
-                if missing:
-                    for r_ in set(x for x in (rule, rule_src) if x):
-                        check.violation(r_, st, 'hide_args removes the %s parameters without recording their names as consumed: naming one of them '
-                                        'afterwards is not rejected as a duplicate and their provenance entries stay' % '/'.join(missing), key=key_c,
-                                        guards=gtext, witness="mask(s('a, b'), 0, 'a', hide_args=True) must raise; mask(s('a'), hide_args=True).sources has no 'a'")
-                else:
-                    for r_ in set(x for x in (rule, rule_src) if x):
-                        check.holds(r_, st, 'hide_args records the names of all positional parameters as consumed', key=key_c, guards=gtext)
-        # the list of names processed is emptied under hide_kwargs
-        nl = [e for e in p.effects if e.kind == 'loop' and _is_name_loop(model, e)]
-        key2 = '_signatures:_mask|names|%s' % fkeytxt
-        if g.get('hide_kwargs') is True:
-            for e in nl:
-                if not model.is_empty_fresh(e.target):
-                    check.violation(rule, site(None, e.node), 'names are still processed although hide_kwargs removed every keyword-passable parameter',
-                                    key=key2, guards=gtext)
         # ---- provenance removals (C08.R2)
         if rule_src is None:
             continue
@@ -287,23 +262,57 @@ def rule_mask_hide(check, model, rule, rule_src):
                 dels.append(('one', e.args[0], e))
             elif e.kind == 'call' and isinstance(e.op, str) and e.op.endswith(':_remove_from_src') and len(e.args) == 2 and e.args[0] == src0:
                 dels.append(('many', e.args[1], e))
+            elif e.kind == 'loop' and not _is_name_loop(model, e) and e.sub:
+                # `for p in <bucket>: src.pop(p.name, None)` removes the entries of everything the loop runs over
+                el_ = ('E', e.target, e.ctx)
+                if all(any(x.kind == 'mut' and x.target == src0 and x.op in ('pop', 'delitem') and x.args and x.args[0] == ('A', el_, 'name')
+                           for x in sp.effects) for sp in e.sub if sp.status in ('continue', 'end', 'fall', 'next')) \
+                        and any(x.kind == 'mut' and x.target == src0 for sp in e.sub for x in sp.effects):
+                    dels.append(('many', e.target, e))
         key3 = '_signatures:_mask|srcdel|%s' % fkeytxt
         probs = []
         consumed = [d for d in dels if d[0] == 'many' and d[1][0] == 'SET']
         if not consumed:
             probs.append('the names consumed positionally are never removed from the provenance map')
+        def _name_of(t, idx):
+            # `<the star parameter of the input>.name`, also read through the variable the loop over the names carries it in
+            if not (t[0] == 'A' and t[2] == 'name'):
+                return False
+            o = t[1]
+            if o[0] == 'V' and len(o) > 3 and o[3] == 'after':
+                o = model.resolve_after(o, p)[0]
+            return o == ('S', model.sr, K(idx))
         for val in _completions(g, names):
-            hv = g.get(('has', 'VP'))
-            hk = g.get(('has', 'VK'))
+            hv = g.get(('has_after', 'VP'), g.get(('has', 'VP')))
+            hk = g.get(('has_after', 'VK'), g.get(('has', 'VK')))
             if (val['hide_args'] or val['hide_varargs']) and hv is not False:
-                if not [d for d in dels if d[0] == 'one' and d[1] == ('A', ('S', model.sr, K(iVP)), 'name')]:
+                if not [d for d in dels if d[0] == 'one' and _name_of(d[1], iVP)]:
                     probs.append('*args hidden but its provenance entry stays')
             if (val['hide_kwargs'] or val['hide_varkwargs']) and hk is not False:
-                if not [d for d in dels if d[0] == 'one' and d[1] == ('A', ('S', model.sr, K(iVK)), 'name')]:
+                if not [d for d in dels if d[0] == 'one' and _name_of(d[1], iVK)]:
                     probs.append('**kwargs hidden but its provenance entry stays')
+            def _mentions_bucket(t, idx):
+                for s_ in subterms(t):
+                    r_ = model.resolve_after(s_, p)[0] if s_[0] == 'V' and len(s_) > 3 and s_[3] == 'after' else s_
+                    if r_ is None:
+                        continue
+                    if model.sides.bucket(r_) == ('sig', idx) or (r_[0] == 'SL' and model.sides.bucket(r_[1]) == ('sig', idx)):
+                        return True
+                return False
+            many = [d for d in dels if d[0] == 'many']
+            if val['hide_args']:
+                # removed from the map directly, or by way of the set of consumed names the map is purged of
+                via_set = set()
+                for e_ in p.effects:
+                    if e_.kind == 'mut' and e_.target[0] == 'SET' and e_.op in ('update', 'add', 'ior') and e_.args:
+                        for i_ in (iPO, iPOK):
+                            if _mentions_bucket(e_.args[0], i_):
+                                via_set.add(i_)
+                for i_ in (iPO, iPOK):
+                    if i_ not in via_set and not [d for d in many if _mentions_bucket(d[1], i_)]:
+                        probs.append('hide_args removes the %s parameters but not their provenance entries' % proto.kind_at(i_))
             if val['hide_kwargs']:
-                many = [d for d in dels if d[0] == 'many']
-                pokdel = [d for d in many if any(model.sides.bucket(s) == ('sig', iPOK) for s in subterms(d[1]))
+                pokdel = [d for d in many if _mentions_bucket(d[1], iPOK)
                           or (d[1][0] == 'C' and d[1][2] and model.is_empty_fresh(d[1][2][0]))]
                 kwodel = [d for d in many if model.sides.bucket(d[1]) == ('sig', iKWO)]
                 if not pokdel and not val['hide_args']:
@@ -312,17 +321,17 @@ def rule_mask_hide(check, model, rule, rule_src):
                     probs.append('hide_kwargs removes the keyword-only parameters but not their provenance entries')
             if not (val['hide_args'] or val['hide_varargs']):
                 # the *args entry must survive unless a named POK removes it (inside the name loop)
-                if [d for d in dels if d[0] == 'one' and d[1] == ('A', ('S', model.sr, K(iVP)), 'name')]:
+                if [d for d in dels if d[0] == 'one' and _name_of(d[1], iVP)]:
                     probs.append('the provenance entry of *args is removed although *args stays')
             if not (val['hide_kwargs'] or val['hide_varkwargs']):
-                if [d for d in dels if d[0] == 'one' and d[1] == ('A', ('S', model.sr, K(iVK)), 'name')]:
+                if [d for d in dels if d[0] == 'one' and _name_of(d[1], iVK)]:
                     probs.append('the provenance entry of **kwargs is removed although **kwargs stays')
         if probs and not unknown:
             for m in sorted(set(probs))[:2]:
                 check.violation(rule_src, st, m, key=key3 + '|' + m[:40], guards=gtext,
                                 witness="mask(s('a, *args, **kwargs'), hide_varargs=True).sources must not keep 'args'")
         elif probs:
-            check.inconclusive(rule_src, st, 'provenance removals not decidable on this path', key=key3)
+            check.inconclusive(rule_src, st, 'provenance removals not decidable on this path: %s / unknown %s' % (sorted(set(probs)), lits_text(unknown)), key=key3)
         else:
             check.holds(rule_src, st, 'every bucket removal is paired with the removal of its provenance entries', key=key3, guards=gtext)
     check.floor(rule, 'returning paths of _mask', n, 40)
@@ -557,10 +566,23 @@ def rule_mask_names(check, model, rules):
                                 add('src', 'row "keyword-only": parameter removed but its provenance entry stays')
                 elif row == 'absorb':
                     for pm in parts:
-                        if pm:
+                        if pm and g.get('in_input_parameters') is True:
+                            # the name is that of a positional-only or star parameter of the input: it is absorbed by **kwargs, and a
+                            # parameter of that name cannot be added to the signature (D38)
+                            if kwo_puts or kwo_pops:
+                                add('table', 'row "absorbed by **kwargs, partial, name of another parameter": a parameter is created or removed '
+                                             'although one of that name exists')
+                            if src_sets or src_pops:
+                                add('src', 'row "absorbed by **kwargs, partial, name of another parameter": the provenance entry of the existing '
+                                           'parameter of that name is overwritten or removed')
+                        elif pm:
                             news = [e for e in kwo_puts if e.op == 'setitem' and e.args[0] == el]
                             if not news:
                                 add('table', 'row "absorbed by **kwargs, partial": no keyword-only parameter is created for the bound keyword')
+                            elif g.get('in_input_parameters') is None:
+                                add('table', 'row "absorbed by **kwargs, partial": a keyword-only parameter is created without testing that the input '
+                                             'has no parameter of that name (a positional-only or star parameter): the result has two parameters of one '
+                                             'name and its construction raises ValueError')
                             for e in news:
                                 v = e.args[1]
                                 ce = None
@@ -867,8 +889,11 @@ def rule_mask_consume(check, model, rule):
             else:
                 check.violation(rule, st, 'consumption draws from %s' % [show(a) for a in t[2]], key=key + '|order',
                                 witness="mask(s('a, /, b'), 2) must be ()")
-            if g.get('hide_args') is not False or g.get('num_args') is not True:
-                check.violation(rule, st, 'the consuming loop is not guarded by "not hide_args and num_args"', key=key + '|guard',
+            # (whether hide_args may gate the count check at all is C03.R6's business: it may not)
+            from .rules_classes import dominated_by
+            numtxt = model.role['num_args']
+            if not dominated_by(model.fi, e.node, lambda test, pol: pol and norm(test) in (numtxt, '%s > 0' % numtxt, '%s != 0' % numtxt, '%s >= 1' % numtxt)):
+                check.violation(rule, st, 'the consuming loop is not guarded by "num_args"', key=key + '|guard',
                                 guards=lits_text(p.lits))
             # induction variable
             el = ('E', t, e.ctx)
@@ -1192,3 +1217,193 @@ def rule_mask_binding(check, model, rule):
         check.holds(rule, st, 'mask() runs _mask in non-partial mode', key=key)
     else:
         check.violation(rule, st, 'mask() passes %s as the partial object' % (show(got) if got else 'nothing'), key=key)
+
+
+def _exits(stmt, in_loop=False):
+    """does the statement contain a way out of the block it is in (return; break/continue of an enclosing loop)?"""
+    for c in ast.iter_child_nodes(stmt):
+        if isinstance(c, ast.Return):
+            return True
+        if isinstance(c, (ast.Break, ast.Continue)) and not in_loop:
+            return True
+        if isinstance(c, (ast.FunctionDef, ast.AsyncFunctionDef, ast.Lambda, ast.ClassDef)):
+            continue
+        if _exits(c, in_loop or isinstance(c, (ast.For, ast.While))):
+            return True
+    return False
+
+
+def _implied_falsy(test):
+    """names that are falsy whenever `test` is true"""
+    if isinstance(test, ast.BoolOp) and isinstance(test.op, ast.And):
+        out = set()
+        for v in test.values:
+            out |= _implied_falsy(v)
+        return out
+    if isinstance(test, ast.UnaryOp) and isinstance(test.op, ast.Not):
+        o = test.operand
+        if isinstance(o, ast.Name):
+            return set([o.id])
+        if isinstance(o, ast.BoolOp) and isinstance(o.op, ast.Or):
+            out = set()
+            for v in o.values:
+                if isinstance(v, ast.Name):
+                    out.add(v.id)
+                elif isinstance(v, ast.BoolOp) and isinstance(v.op, ast.Or):
+                    out |= _implied_falsy(ast.UnaryOp(op=ast.Not(), operand=v))
+            return out
+    return set()
+
+
+_MUTATORS = frozenset(['update', 'add', 'clear', 'pop', 'append', 'remove', 'discard', 'extend', 'insert', 'popitem', 'setdefault',
+                       'difference_update', 'intersection_update', 'sort', 'reverse'])
+
+
+def rule_mask_flag_independence(check, model, rule):
+    """C03.R8: "mask raises ValueError exactly when sig could not be passed those arguments at all" -- a statement about the signature,
+    the number of positionals and the names only; "the hide_* flags only ever remove parameters".  So no decision to raise may depend on a
+    hide flag: a `raise` of _mask is not inside a branch chosen by a flag (nor in the `elif`/`else` of one), and none of the tests on the
+    way to it -- the enclosing conditions, the iterables of the enclosing loops -- reads a variable that a flag-chosen branch has
+    assigned or mutated before.  (Applying the flags to what the arguments left -- after the loop over the names -- satisfies this;
+    emptying the list of names, the consumed set or a bucket under a flag beforehand does not.)"""
+    from .callgraph import raise_key
+    fi = model.fi
+    fnode = fi.node
+    flags = set(model.role[f] for f in FLAGS)
+
+    def names_in(node):
+        return set(x.id for x in ast.walk(node) if isinstance(x, ast.Name))
+
+    # 1. variables assigned or mutated under a flag-chosen branch (or from an expression reading a flag), with the line it first happens
+    taint = {}      # name -> (line, why)
+
+    def flagged(test):
+        return bool(names_in(test) & (flags | set(taint_flags)))
+    taint_flags = set()    # variables that hold a flag-derived truth value (hide = hide_args or hide_varargs)
+
+    def written(stmt):
+        """(name, line) for every local the statement assigns or mutates"""
+        out = []
+        for x in ast.walk(stmt):
+            if isinstance(x, ast.Name) and isinstance(x.ctx, (ast.Store, ast.Del)):
+                out.append((x.id, x.lineno))
+            elif isinstance(x, (ast.Subscript, ast.Attribute)) and isinstance(x.ctx, (ast.Store, ast.Del)) and isinstance(x.value, ast.Name):
+                out.append((x.value.id, x.lineno))
+            elif isinstance(x, ast.Call) and isinstance(x.func, ast.Attribute) and x.func.attr in _MUTATORS and isinstance(x.func.value, ast.Name):
+                out.append((x.func.value.id, x.lineno))
+            elif isinstance(x, ast.Call) and isinstance(x.func, ast.Name) and x.func.id == '_remove_from_src' and x.args and isinstance(x.args[0], ast.Name):
+                out.append((x.args[0].id, x.lineno))
+        return out
+
+    def visit(stmts, under):
+        for s_ in stmts:
+            if isinstance(s_, ast.Assign) and len(s_.targets) == 1 and isinstance(s_.targets[0], ast.Name) and names_in(s_.value) & (flags | taint_flags):
+                # a value computed from a flag: a truth value derived from flags, or a bucket chosen by one
+                if isinstance(s_.value, (ast.BoolOp, ast.UnaryOp, ast.Compare, ast.Name)):
+                    taint_flags.add(s_.targets[0].id)
+                else:
+                    taint.setdefault(s_.targets[0].id, (s_.lineno, 'computed from a hide flag'))
+                continue
+            if isinstance(s_, ast.If):
+                u = under or (flagged(s_.test) and norm(s_.test))
+                visit(s_.body, u)
+                visit(s_.orelse, u)
+                continue
+            if isinstance(s_, (ast.For, ast.While)):
+                u = under or (isinstance(s_, ast.While) and flagged(s_.test) and norm(s_.test))
+                visit(s_.body, u)
+                visit(s_.orelse, u)
+                continue
+            if isinstance(s_, ast.Try):
+                for blk in [s_.body, s_.orelse, s_.finalbody] + [h.body for h in s_.handlers]:
+                    visit(blk, under)
+                continue
+            if isinstance(s_, (ast.With,)):
+                visit(s_.body, under)
+                continue
+            if under:
+                for name, line in written(s_):
+                    taint.setdefault(name, (line, 'written under `%s`' % under))
+            else:
+                # conditional expressions on a flag
+                for x in ast.walk(s_):
+                    if isinstance(x, ast.IfExp) and flagged(x.test):
+                        for name, line in written(s_):
+                            taint.setdefault(name, (line, 'chosen by `%s`' % norm(x.test)))
+    visit(fi.main_body, False)
+
+    # 2. every raise
+    n = 0
+    for r in ast.walk(fnode):
+        if not isinstance(r, ast.Raise) or r.exc is None:
+            continue
+        n += 1
+        key = 'flag-independent|%s' % raise_key(fnode, r.exc)
+        st = '%s %s' % (fi.loc(r), fi.key)
+        problems = []
+        # enclosing loops: a taint anywhere inside the loop reaches every iteration
+        loops = []
+        t = r
+        while getattr(t, '_parent', None) is not None and t is not fnode:
+            par = t._parent
+            if isinstance(par, (ast.For, ast.While)):
+                loops.append(par)
+            t = par
+
+        def tainted_at(name, line):
+            tl = taint.get(name)
+            if tl is None:
+                return None
+            if tl[0] <= line or any(lp.lineno <= tl[0] <= (lp.end_lineno or lp.lineno) for lp in loops):
+                return tl
+            return None
+        # what must be non-empty / non-zero for this raise to be reached at all (an earlier exit taken only when one of these is
+        # empty skips nothing)
+        needs = set()
+        t = r
+        while getattr(t, '_parent', None) is not None and t is not fnode:
+            par = t._parent
+            if isinstance(par, ast.For) and t in par.body and isinstance(par.iter, ast.Name):
+                needs.add(par.iter.id)
+            if isinstance(par, ast.If) and t in par.body:
+                for c_ in (par.test.values if isinstance(par.test, ast.BoolOp) and isinstance(par.test.op, ast.And) else [par.test]):
+                    if isinstance(c_, ast.Name):
+                        needs.add(c_.id)
+            t = par
+        t = r
+        while getattr(t, '_parent', None) is not None and t is not fnode:
+            par = t._parent
+            tests = []
+            if isinstance(par, ast.If) and (t in par.body or t in par.orelse):
+                tests.append(par.test)
+            elif isinstance(par, ast.While) and (t in par.body or t in par.orelse):
+                tests.append(par.test)
+            elif isinstance(par, ast.For) and (t in par.body or t in par.orelse):
+                tests.append(par.iter)
+            elif isinstance(par, ast.IfExp):
+                tests.append(par.test)
+            for test in tests:
+                used = names_in(test)
+                if used & (flags | taint_flags):
+                    problems.append('it is taken in a branch chosen by `%s`' % norm(test)[:60])
+                for name in sorted(used):
+                    tl = tainted_at(name, test.lineno)
+                    if tl is not None:
+                        problems.append('the test `%s` on the way to it reads `%s`, which is %s (line %d)' % (norm(test)[:50], name, tl[1][:60], tl[0]))
+            # guard clauses before it in an enclosing block decide whether it is reached at all
+            for field in ('body', 'orelse', 'finalbody'):
+                blk = getattr(par, field, None)
+                if isinstance(blk, list) and t in blk:
+                    for s_ in blk[:blk.index(t)]:
+                        if isinstance(s_, ast.If) and _exits(s_) and names_in(s_.test) & (flags | taint_flags) \
+                                and not (_implied_falsy(s_.test) & needs):
+                            problems.append('an earlier exit under `%s` skips it' % norm(s_.test)[:60])
+            t = par
+        if problems:
+            check.violation(rule, st, 'whether %s is raised depends on a hide_* flag: %s -- the flags may only remove parameters from what the '
+                            'arguments left, not change which arguments are accepted' % (norm(r.exc)[:50], '; '.join(sorted(set(problems))[:2])),
+                            key=key, witness="mask(s('a'), 0, 'zz', hide_kwargs=True) must raise; mask(s('a, /'), 2, hide_args=True) must raise; "
+                                             "mask(s('a, *, k'), 0, 'a', hide_args=True) must not")
+        else:
+            check.holds(rule, st, '%s is decided by the signature and the arguments alone (no hide_* flag on the way)' % norm(r.exc)[:50], key=key)
+    check.floor(rule, 'raise statements of _mask', n, 3)
